@@ -33,7 +33,18 @@ var syncSeq uint64 = 1 << 40
 
 // resync: cut every connection, install the plan for the next ones, and Tell sync messages until one arrives
 // (the first Tell after a cut is lost or dead-lettered: that is C14's business, not this tier's).
+//
+// One retry: a single attempt that does not get through within its 15 s on a heavily loaded machine must not become a
+// "no connection" violation; a link that really does not come up fails both attempts.
 func (h *H) resync(from, to *Node, plan func(i int) Plan) bool {
+	if h.resyncOnce(from, to, plan) {
+		return true
+	}
+	h.o.Stats["resync-retried"]++
+	return h.resyncOnce(from, to, plan)
+}
+
+func (h *H) resyncOnce(from, to *Node, plan func(i int) Plan) bool {
 	to.Proxy.KillAll()
 	to.Proxy.SetPlan(plan)
 	ref := RemoteRecv(to)
@@ -175,7 +186,7 @@ func (h *H) roundLimit() time.Duration {
 	if h.tier == "thorough" {
 		return 240 * time.Second
 	}
-	return 25 * time.Second
+	return 60 * time.Second // generous: a loaded machine must not turn a slow round into a violation
 }
 
 type marks struct{ rec, rec2, df, rc, rf, dead, conns int }
@@ -228,9 +239,9 @@ func (h *H) round(A, B *Node, cfg roundCfg, seed uint64) {
 	if cfg.reverse {
 		connA = A.Proxy.Conns(0)[mA.conns-1]
 	}
-	waitUntil(time.Second, func() bool { return connB.Received() == connB.Pos() })
+	waitUntil(5*time.Second, func() bool { return connB.Received() == connB.Pos() })
 	if connA != nil {
-		waitUntil(time.Second, func() bool { return connA.Received() == connA.Pos() })
+		waitUntil(5*time.Second, func() bool { return connA.Received() == connA.Pos() })
 	}
 	recB0, _ := connB.Record()
 	var recA0 []byte
@@ -575,7 +586,7 @@ func (h *H) runFrame() {
 		select {
 		case f := <-dl:
 			f()
-		case <-time.After(40 * time.Second):
+		case <-time.After(90 * time.Second):
 			h.o.Monitor("harness-timeout", nil, "deadline10s scenario did not finish")
 		}
 	}()
@@ -698,7 +709,25 @@ func (h *H) handshakeSplit(A, B *Node) {
 		}
 		A.Sys.Tell(snd, b)
 		<-b.Done
-		waitUntil(1500*time.Millisecond, func() bool { return B.Rec.Len()-m.rec >= n })
+		// everything A wrote has been handed to B; then B gets time (generously) to deliver what it was handed
+		waitUntil(5*time.Second, func() bool {
+			for _, c := range B.Proxy.Conns(m.conns) {
+				if c.Received() != c.Pos() {
+					return false
+				}
+			}
+			return true
+		})
+		handed := 0
+		for _, c := range B.Proxy.Conns(m.conns) {
+			rec, _ := c.Record()
+			for _, fr := range splitFrames(rec) {
+				if x := decodeXMsgFrame(fr); x != nil && x.Kind == KTell {
+					handed++
+				}
+			}
+		}
+		waitUntil(10*time.Second, func() bool { return B.Rec.Len()-m.rec >= handed })
 		time.Sleep(20 * time.Millisecond)
 		got := B.Rec.Snapshot(m.rec)
 		conns := B.Proxy.Conns(m.conns)
@@ -806,7 +835,7 @@ func (h *H) deadline10s(out chan<- func()) {
 			time.Sleep(2 * time.Millisecond)
 		}
 	}
-	waitUntil(2*time.Second, func() bool { return B.Rec.Len() >= int(seq) })
+	waitUntil(15*time.Second, func() bool { return B.Rec.Len() >= int(seq) })
 	got := map[uint64]bool{}
 	var order []uint64
 	for _, g := range B.Rec.Snapshot(0) {
